@@ -2,8 +2,9 @@
 
 package websocket
 
-// W7ws: byte-stream world of internal/websocket. Four script modes share one world:
+// W7ws: byte-stream world of internal/websocket. Five script modes share one world:
 //   read  - frame script -> real reader vs reference decoder           (C29, close clauses of C31)
+//   multi - several read-mode (C29) or rt-mode (C30) connections in one run (shared pools)
 //   rt    - real writer -> wire validator + real reader on the peer    (C30)
 //   close - Conn-level close handshake under concurrency and faults    (C31)
 //   hs    - Upgrader.Upgrade over generated requests (input sweep)     (C31)
@@ -17,6 +18,10 @@ import (
 func w7GenScript(c *simrt.Choice, prop, tier string) any {
 	switch prop {
 	case "C30":
+		// one run in five: several writer connections in one run (shared deflater pools)
+		if c.Pick(4, 1) == 1 {
+			return w7GenMulti(c, prop, tier)
+		}
 		return w7GenRT(c, prop, tier)
 	case "C31":
 		switch c.Pick(4, 3, 3) {
@@ -28,6 +33,10 @@ func w7GenScript(c *simrt.Choice, prop, tier string) any {
 			return w7GenRead(c, prop, tier)
 		}
 	}
+	// C29: three quarters single-connection streams, one quarter several connections in one run
+	if c.Pick(3, 1) == 1 {
+		return w7GenMulti(c, prop, tier)
+	}
 	return w7GenRead(c, prop, tier)
 }
 
@@ -36,6 +45,8 @@ func w7Run(s *simrt.Sim, script any, prop string) {
 	switch sc.Mode {
 	case "read":
 		w7RunRead(s, sc, prop)
+	case "multi":
+		w7RunMulti(s, sc, prop)
 	case "rt":
 		w7RunRT(s, sc, prop)
 	case "close":
@@ -116,6 +127,8 @@ func w7Shrinks(script any) []any {
 				add(func(c *w7Script) { c.Frames[i].LenMode = 0; c.Trunc = -1; c.Flips = nil })
 			}
 		}
+	case "multi":
+		out = append(out, w7ShrinksMulti(sc)...)
 	case "rt":
 		out = append(out, w7ShrinksRT(sc)...)
 	case "close":
